@@ -44,14 +44,14 @@ var (
 // FaultSpec is one entry of the fault plan, fixed before the system runs.
 type FaultSpec struct {
 	Site   Kind   `json:"site"`
-	Task   int    `json:"task"`   // -1: any task
-	Op     int    `json:"op"`     // -1: occurrence counted over the whole run of the task; >=0: within that op of the task
-	Occ    int    `json:"occ"`    // 0-based occurrence index of the site
-	Fault  uint32 `json:"fault"`  // fault kind
-	Param  uint32 `json:"param"`  // byte offset / chunk size / short count
-	Repeat int    `json:"repeat"` // additional consecutive occurrences that also fail (transient n); -1: until heal
+	Task   int    `json:"task"`            // -1: any task
+	Op     int    `json:"op"`              // -1: occurrence counted over the whole run of the task; >=0: within that op of the task
+	Occ    int    `json:"occ"`             // 0-based occurrence index of the site
+	Fault  uint32 `json:"fault"`           // fault kind
+	Param  uint32 `json:"param"`           // byte offset / chunk size / short count
+	Repeat int    `json:"repeat"`          // additional consecutive occurrences that also fail (transient n); -1: until heal
 	Match  string `json:"match,omitempty"` // KGet only: restrict to this normalised path ("" = any)
-	Disk   int    `json:"disk"`   // KGet only: -1 any
+	Disk   int    `json:"disk"`            // KGet only: -1 any
 }
 
 func (f FaultSpec) String() string {
@@ -127,10 +127,11 @@ type World struct {
 	Sched *Sched // nil: direct mode only
 	disks []*disk
 
-	Plan   []FaultSpec
-	Healed bool
-	counts map[[3]int]int // (task, op|-1, site) -> occurrences so far
-	active map[int]int    // plan index -> remaining repeats
+	Plan       []FaultSpec
+	Healed     bool
+	counts     map[[3]int]int // (task, op|-1, site) -> occurrences so far
+	pathCounts map[string]int // "disk:path" -> Gets so far
+	active     map[int]int    // plan index -> remaining repeats
 
 	Fired   map[string]int
 	Gets    []GetRec
@@ -151,7 +152,7 @@ type World struct {
 }
 
 func NewWorld(disks []*DiskSpec) *World {
-	w := &World{counts: map[[3]int]int{}, active: map[int]int{}, Fired: map[string]int{}, Probes: map[string]int{}}
+	w := &World{counts: map[[3]int]int{}, pathCounts: map[string]int{}, active: map[int]int{}, Fired: map[string]int{}, Probes: map[string]int{}}
 	for i, d := range disks {
 		w.disks = append(w.disks, &disk{id: i, spec: d, cur: map[string]int{}})
 	}
@@ -213,6 +214,12 @@ func (w *World) matchFault(task int, k Kind, diskID int, p string) (FaultSpec, b
 	if op >= 0 {
 		w.counts[kOp] = occOp + 1
 	}
+	occPath := 0
+	if k == KGet {
+		pk := fmt.Sprintf("%d:%s", diskID, p)
+		occPath = w.pathCounts[pk]
+		w.pathCounts[pk] = occPath + 1
+	}
 	if w.Healed {
 		return FaultSpec{}, false
 	}
@@ -241,7 +248,9 @@ func (w *World) matchFault(task int, k Kind, diskID int, p string) (FaultSpec, b
 			continue
 		}
 		occ := occAll
-		if f.Op >= 0 {
+		if k == KGet && f.Match != "" {
+			occ = occPath // a fault bound to a path counts the fetches of that path
+		} else if f.Op >= 0 {
 			if f.Op != op {
 				continue
 			}
